@@ -244,7 +244,7 @@ func pruneWorker(quick bool) {
 func runPruning(r *vk.Run) (cases, probesFailed int) {
 	cs_ := pruneCases(r.Quick())
 	outcomes := map[string]bool{}
-	done := r.RunIsolated(len(cs_), vk.IsoOpts{CaseTimeout: 20e9, ExtraArgs: []string{"--part", "prune"}}, func(i int, raw json.RawMessage, fatal string) {
+	done := r.RunIsolated(len(cs_), vk.IsoOpts{CaseTimeout: 120e9, ExtraArgs: []string{"--part", "prune"}}, func(i int, raw json.RawMessage, fatal string) {
 		c := cs_[i]
 		if fatal != "" {
 			key := "pruning-does-not-terminate"
